@@ -350,8 +350,16 @@ fn acknacks(dgs: &[(crate::structure::locator::Locator, Vec<u8>)]) -> Vec<(u8, i
   res
 }
 
+/// run-length encoded (maximal runs), as Model.rle
 fn coq_bools(v: &[bool]) -> String {
-  util::list(v.iter().map(|b| util::b(*b).to_string()))
+  let mut runs: Vec<(usize, bool)> = Vec::new();
+  for b in v {
+    match runs.last_mut() {
+      Some((n, x)) if x == b => *n += 1,
+      _ => runs.push((1, *b)),
+    }
+  }
+  util::list(runs.iter().map(|(n, b)| format!("({}, {})", n, util::b(*b))))
 }
 fn coq_zs(v: &[i64]) -> String {
   util::list(v.iter().map(|x| util::z(*x as i128)))
@@ -527,7 +535,11 @@ fn numbits(r: &mut Rng) -> u32 {
 }
 
 fn sub_known(s: &Sub) -> bool {
-  matches!(s, Sub::DataFrag { total, payload, .. } if (*total as u64) > 64 * payload.len() as u64 + 1024)
+  match s {
+    Sub::DataFrag { total, payload, .. } => (*total as u64) > 64 * payload.len() as u64 + 1024,
+    Sub::Blob { bytes } => blob_known_datafrag(bytes) > 0,
+    _ => false,
+  }
 }
 fn sub_too_big(s: &Sub) -> bool {
   matches!(s, Sub::DataFrag { total, .. } if *total > 4195264)
@@ -690,6 +702,42 @@ fn gen_valid(r: &mut Rng) -> Vec<Dgram> {
   out
 }
 
+/// Largest data_size announced by a DATA_FRAG submessage of a raw datagram that is out of
+/// proportion to the payload it carries (the known-finding class, recognised on bytes with the
+/// framing rules of Submessage::read_from_buffer); 0 if there is none.
+fn blob_known_datafrag(b: &[u8]) -> u32 {
+  let mut worst = 0u32;
+  let mut pos = 20usize;
+  while pos + 4 <= b.len() {
+    let id = b[pos];
+    let le = b[pos + 1] & 1 == 1;
+    let rd16 = |o: usize| -> u16 {
+      let x = [b[o], b[o + 1]];
+      if le { u16::from_le_bytes(x) } else { u16::from_be_bytes(x) }
+    };
+    let mut len = rd16(pos + 2) as usize;
+    if len == 0 && id != 0x01 && id != 0x09 {
+      len = b.len() - pos - 4;
+    }
+    if pos + 4 + len > b.len() {
+      break;
+    }
+    let body = &b[pos + 4..pos + 4 + len];
+    if id == 0x16 && body.len() >= 32 {
+      let x = [body[28], body[29], body[30], body[31]];
+      let data_size = if le { u32::from_le_bytes(x) } else { u32::from_be_bytes(x) };
+      let y = [body[2], body[3]];
+      let oiq = if le { u16::from_le_bytes(y) } else { u16::from_be_bytes(y) } as usize;
+      let payload = body.len().saturating_sub(4 + oiq);
+      if data_size as u64 > 64 * payload as u64 + 1024 {
+        worst = worst.max(data_size);
+      }
+    }
+    pos += 4 + len;
+  }
+  worst
+}
+
 /// byte-level mutation / truncation of a well-formed datagram
 fn gen_mutated(r: &mut Rng) -> Vec<Dgram> {
   let base = if r.chance(1, 2) { gen_valid(r) } else { gen_hostile(r) };
@@ -725,6 +773,11 @@ fn gen_mutated(r: &mut Rng) -> Vec<Dgram> {
           let extra = r.range(1, 9) as usize;
           b.extend((0..extra).map(|_| r.next() as u8));
         }
+      }
+      // the known-finding class is represented by structured cases; a mutant announcing more
+      // than 16 MB would only slow the run down (the buffer is zeroed): cut it short instead
+      if blob_known_datafrag(&b) > (1 << 24) {
+        b.truncate(40);
       }
       Dgram { src: d.src, subs: vec![Sub::Blob { bytes: b }] }
     })
@@ -847,9 +900,9 @@ fn corpus() -> Vec<Vec<Dgram>> {
   v.push(rep(d1(vec![Sub::DataFrag { sn: 7, start: 2, in_sub: 1, fsize: 8, total: 1500, payload: cdr_payload(4) }]), 1000));
   v.push(rep(d1(vec![Sub::AckNack { base: i64::MAX, numbits: 256, words: vec![u32::MAX; 8], count: 1 }, Sub::NackFrag { sn: 3, base: 2, numbits: 256, words: vec![u32::MAX; 8], count: 1 }]), 1000));
   v.push(rep(d1(vec![data(5)]), 1000));
-  v.push((0..1000).map(|i| d1(vec![hb(1, 300, i + 1)])).collect());
-  v.push((0..500).map(|i| d1(vec![Sub::Gap { start: 3 + 600 * i, base: 500 + 600 * i, numbits: 0, words: vec![] }])).collect());
-  v.push((0..300).map(|i| Dgram { src: 3, subs: vec![Sub::DataFrag { sn: 1 + i, start: 1, in_sub: 1, fsize: 8, total: 1000, payload: cdr_payload(4) }] }).collect());
+  v.push((0..200).map(|i| d1(vec![hb(1, 300, i + 1)])).collect());
+  v.push((0..200).map(|i| d1(vec![Sub::Gap { start: 3 + 600 * i, base: 500 + 600 * i, numbits: 0, words: vec![] }])).collect());
+  v.push((0..200).map(|i| Dgram { src: 3, subs: vec![Sub::DataFrag { sn: 1 + i, start: 1, in_sub: 1, fsize: 8, total: 1000, payload: cdr_payload(4) }] }).collect());
   v
 }
 
@@ -889,14 +942,26 @@ fn coq_sub(s: &Sub, parsed: bool) -> String {
   }
 }
 fn coq_case(c: &[Dgram], parsed: &[bool]) -> String {
-  format!(
-    "(Build_case {})",
-    util::list(c.iter().enumerate().map(|(i, d)| format!(
-      "(Build_dgram {} {})",
-      d.src,
-      util::list(d.subs.iter().map(|s| coq_sub(s, parsed.get(i).copied().unwrap_or(false))))
-    )))
-  )
+  // run-length encoded: consecutive identical datagrams are printed once with their count
+  let terms: Vec<String> = c
+    .iter()
+    .enumerate()
+    .map(|(i, d)| {
+      format!(
+        "(Build_dgram {} {})",
+        d.src,
+        util::list(d.subs.iter().map(|s| coq_sub(s, parsed.get(i).copied().unwrap_or(false))))
+      )
+    })
+    .collect();
+  let mut rl: Vec<(usize, &String)> = Vec::new();
+  for t in &terms {
+    match rl.last_mut() {
+      Some((n, u)) if *u == t => *n += 1,
+      _ => rl.push((1, t)),
+    }
+  }
+  format!("(Build_case {})", util::list(rl.iter().map(|(n, t)| format!("({}, {})", n, t))))
 }
 
 fn sub_tag(s: &Sub) -> &'static str {
@@ -940,6 +1005,17 @@ fn all_cases(args: &Args) -> Vec<(usize, &'static str, Vec<Dgram>)> {
       }
       _ => ("mutated", gen_mutated(&mut r)),
     };
+    // the known-finding class is represented by structured cases; uninterpreted bytes that
+    // happen to announce a huge sample would only slow the run down (the buffer is zeroed)
+    let mut c = c;
+    for d in c.iter_mut() {
+      if blob_known_datafrag(&datagram(d)) > (1 << 24) {
+        d.subs.retain(|s| !matches!(s, Sub::Raw { .. }));
+        if let [Sub::Blob { bytes }] = d.subs.as_mut_slice() {
+          bytes.truncate(40);
+        }
+      }
+    }
     cases.push((idx, kind, c));
     idx += 1;
   }
@@ -1109,7 +1185,7 @@ pub fn run(args: &Args) -> i32 {
     let Some((parsed, obs, alloc, clean, ms)) = results.get(i) else { continue };
     let parsed: Vec<bool> = parsed.chars().map(|ch| ch == '1').collect();
     let flat: Vec<&Sub> = c.iter().flat_map(|d| d.subs.iter()).collect();
-    let known = flat.iter().any(|s| sub_known(s));
+    let known = flat.iter().any(|s| sub_known(s)) || c.iter().any(|d| blob_known_datafrag(&datagram(d)) > 0);
     // the known finding is the allocation only: anything else that goes wrong in such a case is
     // reported as a violation
     let kf = if known && *clean { "C06-datafrag-size" } else { "" };
